@@ -87,8 +87,11 @@ def histories(draw):
             ops.append(["set_formula_raw", p, "lambda %s: None" % ", ".join(ps)])
         elif k == 13:
             q = draw(st.sampled_from(paths))
+            q2 = draw(st.sampled_from(paths))
             if q != p:
-                ops.append(["new_space_raw", p, n, [q], None])
+                # (one base, or two bases whose members may clash with each other)
+                bs = [q] if q2 in (q, p) or draw(st.booleans()) else [q, q2]
+                ops.append(["new_space_raw", p, n, bs, None])
                 if len(paths) < 7:
                     paths.append(p + [n])
         elif k == 14:
